@@ -5,6 +5,7 @@ from ..rules_tomo import B1_B2_counts, W_fitter, S2_estimator, W1_W2_builders
 
 def run(tree, rep, tier):
     flow = Flow(tree)
+    flow.describe(rep)
     W_fitter(rep, flow, want=("W4", "W5", "W6", "W7", "S1"))
     B1_B2_counts(rep, flow, want=("B1",))
     S2_estimator(rep, flow)
